@@ -242,7 +242,9 @@ def unit_main():
             if feasible(st.pc, k.z == kind):
                 sb = st.copy(); sb.pc.append(k.z == kind); yield sb, mk(sb)
         if feasible(st.pc, k.z == 2):
-            sb = st.copy(); sb.pc.append(k.z == 2); yield from raise_new(ex, sb, "InterfaceError")
+            # any cutplace error: a rejected CID (InterfaceError), a CID file that cannot be parsed (DataFormatError), a rejected row, a failed check
+            for cls in ("InterfaceError", "DataFormatError", "FieldValueError", "CheckError", "CutplaceError"):
+                sb = st.copy(); sb.pc.append(k.z == 2); yield from raise_new(ex, sb, cls)
         st.pc.append(k.z == 0); yield st, st.ghost["r"]
     def setup(ex, st):
         kind = fresh(INT, "kind")[0]; st.pc.append(z3.And(kind.z >= 0, kind.z <= 4)); r = fresh(INT, "r")[0]; st.pc.append(z3.Or(r.z == 0, r.z == 1))
@@ -317,6 +319,18 @@ def unit_c18_table():
                     except SystemExit as e: rc = ("exit", e.code)
                 want = 3 if any(f != "good" for f in fl) else 0
                 return None if rc == want else {"expected": "exit %d" % want, "observed": "exit %r" % (rc,)}
+            # a CID file that is damaged (not just a CID with a wrong row) is a rejected CID: exit 1
+            def dcases():
+                yield ("zero-byte ods", "d0.ods", b""); yield ("non-zip ods", "d1.ods", b"this is no zip archive"); yield ("damaged xlsx", "d2.xlsx", b"PK\x03\x04 damaged")
+                yield ("csv with an unterminated quote", "d3.csv", b'd,format,delimited\nf,"id\n'); yield ("csv that is not UTF-8", "d4.csv", b"d,format,delimited\nf,n\xe4me\n")
+            def dcheck(c):
+                label, name, blob = c
+                p_ = os.path.join(tmp, name); open(p_, "wb").write(blob)
+                with contextlib.redirect_stderr(io.StringIO()):
+                    try: rc = applications.main(["cutplace", p_] + ([files["accepted"][0]] if "csv" in label else []))
+                    except SystemExit as e: rc = ("exit", e.code)
+                return None if rc == 1 else {"expected": "exit 1 (the CID is rejected)", "observed": "exit %r" % (rc,)}
+            r5 = sweep("C18/table/a damaged CID file is a rejected CID (exit 1)", dcases(), dcheck, "bounded", "5 damaged CID files (ods, xlsx, csv)", describe=lambda c: {"cid file": c[0]}, function="applications.main", unit="C18.table")
             # a file that cannot be read stays "cannot be read" (3) also when the CID has an end-of-data check that fails on zero rows
             ecid = w("ecid.csv", "d,format,delimited\nf,id,,,,Integer\nf,name\nc,some,DistinctCount,name >= 1\n")
             def ecases():
@@ -339,7 +353,7 @@ def unit_c18_table():
                     except SystemExit as e: rc = ("exit", e.code)
                 return None if rc == ("exit", 2) else {"expected": "argument error, exit code 2", "observed": repr(rc)}
             r2 = sweep("C18/table/unusable arguments exit with 2", argcases(), argcheck, "bounded", "4 unusable argument lists", function="applications.main", unit="C18.table")
-            return [r1, r2, r3, r4]
+            return [r1, r2, r3, r4, r5]
         finally:
             shutil.rmtree(tmp, ignore_errors=True)
     return NativeUnit("C18.table", "bounded end-to-end table of exit codes through applications.main (in-process)", ["C18"], run, kind="bounded")
